@@ -210,15 +210,10 @@ pub fn describe(frame: &[u8], lvl: Lvl, hash: bool, exact: &Exact, valid: Option
     let mut all_exact = true;
     for (i, b) in w.blocks.iter().enumerate() {
         let l = if b.last { 1 } else { 0 };
-        let is_exact = match (lvl, b.ty) {
-            (Lvl::F, 1) => true,
-            (Lvl::F, 0) if b.size == 0 => true,
-            (Lvl::F, _) => match exact {
-                Exact::Builtin => false,
-                Exact::Script(f) => f(i),
-            },
-            _ => true,
-        };
+        // the model contains the entropy coders and the built-in matcher now (Model/EncCoders.lean):
+        // every block is predicted exactly, whatever the level and the matcher
+        let _ = (exact, lvl);
+        let is_exact = true;
         if !is_exact {
             all_exact = false;
             let r = match b.ty {
@@ -348,10 +343,24 @@ pub fn check_frame(run: &mut Run, c: &FrameCheck, data: &[u8], frame: &[u8]) -> 
                 ok = false;
                 fail_all(run, c.st_props, "structure_block_size", format!("{}: block type {} with size field {} (> 128 KiB)", c.label, b.ty, b.size), c.replay)
             }
+            // header consistency: no block may exceed the window the header declares
+            // (Block_Maximum_Size = min(Window_Size, 128 KiB))
+            run.oracle_checks += 1;
+            let wd = w.hdr[5] as u64;
+            let base = 1u64 << (10 + (wd >> 3));
+            let declared = base + base / 8 * (wd & 7);
+            if let Some(b) = w.blocks.iter().find(|b| b.ty != 2 && b.size as u64 > declared) {
+                ok = false;
+                fail_all(run, c.st_props, "structure_block_exceeds_declared_window", format!("{}: block of {} bytes in a frame whose header declares a {} byte window", c.label, b.size, declared), c.replay)
+            }
             if w.blocks.iter().any(|b| b.ty == 2) {
                 run.oracle_checks += 1;
                 match regen_sizes(frame) {
                     Some(r) => {
+                        if let Some(x) = r.iter().find(|x| **x as u64 > declared) {
+                            ok = false;
+                            fail_all(run, c.st_props, "structure_block_exceeds_declared_window", format!("{}: a block regenerates {} bytes in a frame whose header declares a {} byte window", c.label, x, declared), c.replay)
+                        }
                         if let Some(x) = r.iter().find(|x| **x > BLOCK) {
                             ok = false;
                             fail_all(run, c.st_props, "structure_regen_size", format!("{}: a block regenerates {} bytes (> 128 KiB)", c.label, x), c.replay)
@@ -590,7 +599,10 @@ struct Ctx {
 }
 
 /// one frame through a given API on the built-in matcher; pushes the case and runs the oracles
-fn one_frame(run: &mut Run, ctx: &mut Ctx, label: &str, api: &str, lvl: Lvl, data: &[u8], frags: &[usize], produce: impl FnOnce() -> Vec<u8>) {
+/// `collect`: `Some(v)` = do not push a request line for this frame, append the answer to `v` instead
+/// (frames of one reused compressor are sent to the model as ONE `enc reuse` request, because the
+/// built-in matcher recycles its suffix stores across frames and the bytes depend on the history)
+fn one_frame(run: &mut Run, ctx: &mut Ctx, label: &str, api: &str, lvl: Lvl, data: &[u8], frags: &[usize], mut collect: Option<&mut Vec<String>>, produce: impl FnOnce() -> Vec<u8>) {
     let line = request_line("run", lvl, "B", "B", data, frags);
     let replay = format!("# api: {} ({})\n{}", api, label, if line.len() < 4000 { line.clone() } else { format!("{}… ({} chars; regenerate with the seed, case label above)", &line[..200], line.len()) });
     run.stat(&format!("api_{}", api), 1);
@@ -598,7 +610,10 @@ fn one_frame(run: &mut Run, ctx: &mut Ctx, label: &str, api: &str, lvl: Lvl, dat
     match guarded(produce) {
         Err(p) => {
             let expected = !matches!(lvl, Lvl::U | Lvl::F) && !data.is_empty() && p.contains("not implemented");
-            run.case(line, "fault".into());
+            match collect.as_mut() {
+                Some(v) => v.push("fault".into()),
+                None => run.case(line, "fault".into()),
+            }
             if expected {
                 run.stat("unimplemented_level_panics", 1);
             } else {
@@ -608,7 +623,10 @@ fn one_frame(run: &mut Run, ctx: &mut Ctx, label: &str, api: &str, lvl: Lvl, dat
         }
         Ok(frame) => {
             let ans = describe(&frame, lvl, true, &Exact::Builtin, None);
-            run.case(line, ans);
+            match collect.as_mut() {
+                Some(v) => v.push(ans),
+                None => run.case(line, ans),
+            }
             run.stat("frames", 1);
             run.stat("input_bytes", data.len() as u64);
             if let Ok(w) = walk_frame(&frame, true) {
@@ -644,7 +662,7 @@ pub fn sig_of_panic(p: &str) -> String {
 pub fn run(opts: &Opts) -> Run {
     let mut run = Run::new("enc");
     let mut rng = Rng::new(opts.seed ^ 0xe7c0);
-    let mut ctx = Ctx { spec_limit: if opts.thorough { 600_000 } else { 66_000 }, spec_budget: if opts.thorough { 40_000_000 } else { 700_000 } };
+    let mut ctx = Ctx { spec_limit: if opts.thorough { 600_000 } else { 66_000 }, spec_budget: if opts.thorough { 15_000_000 } else { 700_000 } };
 
     // ---- 1. corpus first (F5 witness: must round-trip now)
     let mut inputs: Vec<(String, Vec<u8>)> = load_corpus();
@@ -652,11 +670,12 @@ pub fn run(opts: &Opts) -> Run {
     // ---- 2. content-directed inputs
     inputs.extend(directed_inputs(&mut rng, opts.thorough));
     // ---- 3. gen::data kinds
-    let n_rand = if opts.thorough { 4000 } else { 120 };
+    // (the model side now runs the matcher and the entropy coders: about 0.7 MB of input per second)
+    let n_rand = if opts.thorough { 1500 } else { 120 };
     let max = if opts.thorough { 2 * 1024 * 1024 } else { 300 * 1024 };
     for i in 0..n_rand {
         let kind = gen::DATA_KINDS[i % gen::DATA_KINDS.len()];
-        let len = if !opts.thorough && i % 4 != 0 { gen::pick_len(&mut rng, 40_000) } else { gen::pick_len(&mut rng, max) };
+        let len = if (!opts.thorough && i % 4 != 0) || (opts.thorough && i % 10 != 0) { gen::pick_len(&mut rng, 40_000) } else { gen::pick_len(&mut rng, max) };
         inputs.push((format!("{} len={}", kind, len), gen::data(&mut rng, kind, len)));
     }
 
@@ -676,13 +695,13 @@ pub fn run(opts: &Opts) -> Run {
             let f = frags.clone();
             let l = lvl.real();
             match api {
-                "compress_to_vec" => one_frame(&mut run, &mut ctx, label, api, lvl, data, &frags, move || compress_to_vec(&d[..], l)),
-                "compress" => one_frame(&mut run, &mut ctx, label, api, lvl, data, &frags, move || {
+                "compress_to_vec" => one_frame(&mut run, &mut ctx, label, api, lvl, data, &frags, None, move || compress_to_vec(&d[..], l)),
+                "compress" => one_frame(&mut run, &mut ctx, label, api, lvl, data, &frags, None, move || {
                     let mut out = Vec::new();
                     compress(FragReader::new(&d, &f), &mut out, l);
                     out
                 }),
-                _ => one_frame(&mut run, &mut ctx, label, api, lvl, data, &frags, move || {
+                _ => one_frame(&mut run, &mut ctx, label, api, lvl, data, &frags, None, move || {
                     let mut out = Vec::new();
                     let mut c = FrameCompressor::new(l);
                     c.set_source(FragReader::new(&d, &f));
@@ -699,17 +718,19 @@ pub fn run(opts: &Opts) -> Run {
         for data in [vec![], vec![1u8], rng.bytes(300)] {
             let d = data.clone();
             let l = lvl.real();
-            one_frame(&mut run, &mut ctx, "unimplemented-level", "compress_to_vec", lvl, &data, &[], move || compress_to_vec(&d[..], l));
+            one_frame(&mut run, &mut ctx, "unimplemented-level", "compress_to_vec", lvl, &data, &[], None, move || compress_to_vec(&d[..], l));
         }
     }
 
     // ---- 5. one compressor reused for several frames (set_source / set_drain / set_compression_level)
-    let n_hist = if opts.thorough { 400 } else { 40 };
+    let n_hist = if opts.thorough { 200 } else { 40 };
     for h in 0..n_hist {
         let mut comp: FrameCompressor<FragReader, Vec<u8>, ruzstd::encoding::MatchGeneratorDriver> = FrameCompressor::new(CompressionLevel::Fastest);
         let mut cur = Lvl::F;
         let frames = rng.range(2, 5);
         let mut prev: Option<Vec<u8>> = None;
+        let mut jobs: Vec<String> = vec![];
+        let mut answers: Vec<String> = vec![];
         for k in 0..frames {
             // histories aimed at leaked state: same data twice (a leaked Huffman table would make the
             // first block of the next frame treeless), Huffman-friendly data, then anything
@@ -735,11 +756,23 @@ pub fn run(opts: &Opts) -> Run {
             comp.set_drain(Vec::new());
             let label = format!("reuse history={} frame={} ", h, k);
             let cref = &mut comp;
-            one_frame(&mut run, &mut ctx, &label, "reused-FrameCompressor", lvl, &data, &frags, move || {
+            jobs.push(format!("{}:{}:{}", lvl.tag(), hex(&data), frags_str(&frags)));
+            one_frame(&mut run, &mut ctx, &label, "reused-FrameCompressor", lvl, &data, &frags, Some(&mut answers), move || {
                 cref.compress();
                 cref.take_drain().unwrap_or_default()
             });
             prev = Some(data);
+        }
+        run.case(format!("enc reuse 1 {}", jobs.join("/")), answers.join(" | "));
+    }
+    // ---- 6. user-supplied matcher whose window_size() is far below the size of its spaces (F13): the
+    // any-matcher theorems of C02 / C15 (`compress_uncompressed_roundtrip_any_matcher`, `header_consistent`)
+    for (k, (w, sp)) in [(1024u64, 4096usize), (0, BLOCK), (5000, 70_000), (65_536, BLOCK)].into_iter().enumerate() {
+        let t = gen::data(&mut rng, "text", (sp * 2 + 900).min(150_000));
+        for lvl in [Lvl::U, Lvl::F] {
+            let case = super::c16::Case { label: format!("user matcher window_size {} with {} byte spaces", w, sp), w, spaces: vec![sp], plan: super::c16::plan(super::c16::Mode::Greedy), data: t.clone(), lvl, frags: frag_scripts(&mut rng, t.len()) };
+            super::c16::run_case(&mut run, &case, opts.seed + k as u64, ctx.spec_limit.min(12_000), &mut ctx.spec_budget, &["C02"], &["C15"]);
+            run.stat("user_matcher_small_window_cases", 1);
         }
     }
     run.stat("spec_budget_left", ctx.spec_budget as u64);
